@@ -13,7 +13,10 @@ def drivers():
                           ("mem_lp16_finder", ["mem_driver.cpp"], ["-DUSE_FINDER=1", "-DABI_LP16"]),
                           ("mem_lp64u", ["mem_driver.cpp"], ["-DUSE_FINDER=0", "-DABI_LP64U"]),
                           # the backend variant that offers the grant / deny interface (and refuses)
-                          ("mem_gd", ["mem_driver.cpp"], ["-DUSE_FINDER=0", "-DVM_GRANT_DENY"])])
+                          ("mem_gd", ["mem_driver.cpp"], ["-DUSE_FINDER=0", "-DVM_GRANT_DENY"]),
+                          # a bounded sandbox whose data pointers are host addresses (nothing is added or masked by
+                          # the backend: only RLBox's own checks keep a pointer inside)
+                          ("mem_hostptr", ["mem_driver.cpp"], ["-DUSE_FINDER=0", "-DABI_LP64U", "-DVM_HOST_POINTERS"])])
 
 
 def record(drv, wd, mode, tag, thorough):
